@@ -23,6 +23,7 @@ func init() {
 	reg("C10_ParserLedgerNFTDest", C10_ParserLedgerNFTDest)
 	reg("C10_ParserLedgerMultiSender", C10_ParserLedgerMultiSender)
 	reg("C10_ParserLedgerMultiDest", C10_ParserLedgerMultiDest)
+	reg("C10_CallReport", C10_CallReport)
 }
 
 var wireOpt = Opt{GasEnough: true, NoRAE: true, Small: true, Thin: true, FixedCaller: true}
@@ -346,4 +347,50 @@ func C10_ParserLedgerMultiDest() {
 	o.NoCall = !verif.Thorough()
 	s := scnMultiTransfer(o)
 	parserLedger(s, vmcommon.BuiltInFunctionMultiESDTNFTTransfer, 2, 1+3*len(scnItems))
+}
+
+// C10_CallReport: for every transfer function and side, the attached call function and
+// arguments the parser reports are exactly the tail of the input the built-in function
+// forwards (C10_Emit* ties the forwarded tail to the same input), for 0..3 call arguments.
+func C10_CallReport() {
+	o := Opt{Small: true, Thin: true, Call2: true, GasEnough: true, NoRAE: true, Direct: true}
+	var s *Scn
+	var fn string
+	min := 0
+	switch verif.Choose("which", 5) {
+	case 0:
+		o.Presence = 2
+		s, fn, min = scnTransfer(o), vmcommon.BuiltInFunctionESDTTransfer, 2
+	case 1:
+		s, fn, min = scnNFTTransfer(o), vmcommon.BuiltInFunctionESDTNFTTransfer, 4
+	case 2:
+		o.Side = 2
+		s, fn, min = scnNFTTransfer(o), vmcommon.BuiltInFunctionESDTNFTTransfer, 4
+	case 3:
+		s = scnMultiTransfer(o)
+		fn, min = vmcommon.BuiltInFunctionMultiESDTNFTTransfer, 2+3*len(scnItems)
+	default:
+		o.Side = 2
+		s = scnMultiTransfer(o)
+		fn, min = vmcommon.BuiltInFunctionMultiESDTNFTTransfer, 1+3*len(scnItems)
+	}
+	// the attached call may carry up to three arguments
+	if len(s.In.Arguments) > min && verif.Bool("extra.call.arg") {
+		s.In.Arguments = append(s.In.Arguments, verif.Bytes("t.arg2", 1))
+	}
+	p, _ := parsers.NewESDTTransferParser(s.W.Codec)
+	res, err := p.ParseESDTTransfers(s.In.CallerAddr, s.In.RecipientAddr, fn, s.In.Arguments)
+	verif.Assert("well-formed-call-parses", verif.And(err == nil, res != nil))
+	if err != nil || res == nil {
+		return
+	}
+	in := s.In.Arguments
+	if len(in) > min {
+		verif.Assert("call-function-reported", res.CallFunction == string(in[min]))
+		sameArgs("call-arg-reported", res.CallArgs, in[min+1:])
+		verif.Reach("three-call-arguments", len(in)-min-1 == 3)
+	} else {
+		verif.Assert("no-call-reported", verif.And(res.CallFunction == "", len(res.CallArgs) == 0))
+		verif.Reach("no-call", true)
+	}
 }
